@@ -50,6 +50,8 @@ struct Variant {
     extra_column: bool,
     counts_given: bool,
     edge_extra_column: bool,
+    /// whether the last row of each file ends with a newline
+    trailing_newline: bool,
 }
 
 fn write_graph(dir: &Path, net: &Net, v: &Variant) -> (String, String) {
@@ -76,6 +78,9 @@ fn write_graph(dir: &Path, net: &Net, v: &Variant) -> (String, String) {
         vs.push_str(&(row.join(",") + "\n"));
     }
     let vp = dir.join(format!("vertices{}", ext));
+    if !v.trailing_newline {
+        vs.pop();
+    }
     write(&vp, &vs, v.gzip);
     let mut es = String::from(if v.edge_extra_column { "edge_id,src_vertex_id,dst_vertex_id,distance,road_name\n" } else { "edge_id,src_vertex_id,dst_vertex_id,distance\n" });
     for (i, (s, d, l)) in net.edges.iter().enumerate() {
@@ -86,6 +91,9 @@ fn write_graph(dir: &Path, net: &Net, v: &Variant) -> (String, String) {
         }
     }
     let ep = dir.join(format!("edges{}", ext));
+    if !v.trailing_newline {
+        es.pop();
+    }
     write(&ep, &es, v.gzip);
     (ep.to_str().unwrap().to_string(), vp.to_str().unwrap().to_string())
 }
@@ -246,7 +254,9 @@ pub fn run(tier: Tier) -> i32 {
         for order in 0..6 {
             for extra_column in [false, true] {
                 for counts_given in [true, false] {
-                    variants.push(Variant { gzip, order, extra_column, counts_given, edge_extra_column: order % 2 == 1 });
+                    for trailing_newline in [true, false] {
+                        variants.push(Variant { gzip, order, extra_column, counts_given, edge_extra_column: order % 2 == 1, trailing_newline });
+                    }
                 }
             }
         }
@@ -257,7 +267,7 @@ pub fn run(tier: Tier) -> i32 {
             st.nontrivial += 1;
         }
         // structured nets: every variant; enumerated nets: a rotating pair of variants (plain and gzip)
-        let vs: Vec<&Variant> = if name.starts_with('G') { vec![&variants[ni % variants.len()], &variants[(ni * 7 + 24) % variants.len()]] } else { variants.iter().collect() };
+        let vs: Vec<&Variant> = if name.starts_with('G') { vec![&variants[ni % variants.len()], &variants[(ni * 7 + 48) % variants.len()], &variants[(ni * 13 + 75) % variants.len()]] } else { variants.iter().collect() };
         for v in vs {
             st.evaluations += 1;
             st.transitions += 1;
@@ -401,9 +411,9 @@ pub fn run(tier: Tier) -> i32 {
     finish(
         &info,
         st,
-        "state = one edge/vertex list (all G(3,m,2) multigraphs with self loops, stars and hubs with in/out degree 0..8, isolated vertices); transition = one load of files written in one variant (plain/gzip x 6 vertex column orders x extra columns x counts given/scanned) through Graph::from_files and DefaultGraphBuilder, compared accessor by accessor with the lists; per-edge tables of 1..40 rows; bindings accessors; non-trivial = at least two edges",
+        "state = one edge/vertex list (all G(3,m,2) multigraphs with self loops, stars and hubs with in/out degree 0..8, isolated vertices); transition = one load of files written in one variant (plain/gzip x 6 vertex column orders x extra columns x counts given/scanned x last row with/without trailing newline) through Graph::from_files and DefaultGraphBuilder, compared accessor by accessor with the lists; per-edge tables of 1..40 rows; bindings accessors; non-trivial = at least two edges",
         true,
-        json!({"enumerated_family": spec.describe(), "max_degree": 8, "variants": 48}),
+        json!({"enumerated_family": spec.describe(), "max_degree": 8, "variants": 96}),
         vec!["vertex coordinates are written as the shortest decimal rendering of an f32, so the comparison is exact".into()],
     )
 }
